@@ -4,6 +4,7 @@ import PPProofs.Props.C10
 #print axioms PP.PR.refines_history
 #print axioms PP.PR.prinv_of_ctor
 #print axioms PP.PR.prinv_of_reinit
+#print axioms PP.PR.reinit_refines
 #print axioms PP.PR.list_ops_keep_names
 #print axioms PP.PR.del_insert_keep_names
 #print axioms PP.PR.unknown_attr_empty
